@@ -1,7 +1,214 @@
-import MicroHttp.Show
+/-
+  MicroHttp.Server — `ClientConnection::{read, write, enqueue_response, is_done}` and
+  `HttpServer::{requests, respond, flush_outgoing_writes, handle_new_connection}` of server.rs as a
+  REACTIVE function: every event carries what the kernel returned while it was handled (the
+  descriptor `accept` produced; the result of the single `recv`; the result of the single `write`).
+  Theorems quantify over all event lists and results; the harness observes the same data on the
+  real kernel and feeds it to this model.
+
+  Ghost state (not in the Rust code): `inst` — a fresh identity per accepted connection — and
+  `outstanding`, the tokens yielded to the application and not yet answered. The real token is the
+  descriptor number only.
+-/
+import MicroHttp.Conn
+import MicroHttp.Display
 namespace MicroHttp
+
+inductive CState | awaitingIn | awaitingOut | closed
+  deriving DecidableEq, Repr
+
+/-- which event set the connection is registered with in epoll (RDHUP is always included) -/
+inductive Interest | inn | out
+  deriving DecidableEq, Repr
+
+structure Client where
+  fd : Nat
+  /-- ghost: identity of this accepted connection -/
+  inst : Nat
+  conn : Conn0
+  state : CState := .awaitingIn
+  inflight : Nat := 0
+  interest : Interest := .inn
+
+structure Token where
+  fd : Nat
+  inst : Nat
+  deriving DecidableEq, Repr
+
 structure Srv where
-  dummy : Nat := 0
+  /-- `HashMap<RawFd, ClientConnection>` (keys unique) -/
+  conns : List Client := []
+  limit : Nat := MAX_PAYLOAD_SIZE
+  hasKill : Bool := false
+  nextInst : Nat := 0
+  /-- ghost: yielded and not yet answered -/
+  outstanding : List Token := []
+
 def Srv.new : Srv := {}
-def srvStep (s : Srv) (_args : List String) : Srv × String := (s, "bad-op")
+
+def MAX_CONNECTIONS : Nat := 10
+
+structure EvFlags where
+  inn : Bool := false
+  out : Bool := false
+  /-- EPOLLERR | EPOLLHUP | EPOLLRDHUP -/
+  hup : Bool := false
+  deriving DecidableEq, Repr
+
+inductive Ev
+  /-- event on the kill-switch descriptor -/
+  | kill
+  /-- event on the listener; `accept` returns descriptor `newFd` -/
+  | listener (newFd : Nat)
+  /-- event on a connection: flags, what `recv` returns if called (with the errno text, which
+      ends up in a 500 body), what `write` returns if called -/
+  | client (fd : Nat) (fl : EvFlags) (rd : Recv) (errText : List Byte) (wr : SinkStep)
+
+inductive Effect
+  | wrote (fd inst : Nat) (bytes : List Byte)
+  | accepted (fd inst : Nat)
+  | refused (fd : Nat)                 -- receives SERVER_FULL_ERROR_MESSAGE and is closed
+  | dropped (fd inst : Nat)            -- epoll_del + close
+  | interest (fd : Nat) (i : Interest) -- epoll_ctl(MOD)
+  deriving DecidableEq, Repr
+
+inductive Abort
+  | shutdown
+  /-- `connections.get_mut(&fd).unwrap()` on an unknown descriptor -/
+  | unknownFd (fd : Nat)
+  /-- a panic inside the connection (excluded by the connection invariant) -/
+  | connPanic (p : Panic)
+  deriving DecidableEq, Repr
+
+inductive PollResult
+  | ok (reqs : List (Token × Request))
+  | aborted (a : Abort)
+
+def findClient (cs : List Client) (fd : Nat) : Option Client := cs.find? (·.fd = fd)
+
+def replaceClient (cs : List Client) (c : Client) : List Client :=
+  cs.map (fun x => if x.fd = c.fd then c else x)
+
+/-- `ClientConnection::read`: requests to yield, and a panic marker. -/
+def Client.read (c : Client) (rd : Recv) (errText : List Byte) : Client × List Request × Option Panic :=
+  let (conn', out) := tryRead P0 c.conn rd
+  let finish (conn : Conn0) (reqs : List Request) : Client :=
+    let c1 := { c with conn := conn, inflight := c.inflight + reqs.length }
+    if pendingWrite conn then { c1 with state := .awaitingOut } else c1
+  match out with
+  | .closed => ({ c with conn := conn', state := .closed }, [], none)
+  | .streamErr _ =>
+    let r := (Response.new .http11 .internalServerError).apply (.setBody errText)
+    (finish (enqueue conn' r) [], [], none)
+  | .parseErr e =>
+    let r := (Response.new .http11 .badRequest).apply (.setBody (badRequestBody e))
+    (finish (enqueue { conn' with parsed := [] } r) [], [], none)
+  | .ok => (finish { conn' with parsed := [] } conn'.parsed, conn'.parsed, none)
+  | .panic p => ({ c with conn := conn' }, [], some p)
+
+/-- `ClientConnection::write` (after the fix: nothing to write is not an error). -/
+def Client.write (c : Client) (w : SinkStep) : Client × List Byte :=
+  let (conn', out, bytes, _) := tryWrite c.conn w
+  match out with
+  | .closed => ({ c with conn := conn', state := .closed }, bytes)
+  | .invalidWrite =>
+    ({ c with conn := conn', state := if c.state = .closed then .closed else .awaitingIn }, [])
+  | .ok => ({ c with conn := conn', state := if pendingWrite conn' then c.state else .awaitingIn }, bytes)
+
+/-- `is_done` -/
+def Client.isDone (c : Client) : Bool :=
+  c.state = .closed && !pendingWrite c.conn && c.inflight = 0
+
+/-- One iteration of the event loop of `requests()`. -/
+def handleEv (s : Srv) (ev : Ev) : Srv × List (Token × Request) × List Effect × Option Abort :=
+  match ev with
+  | .kill =>
+    if s.hasKill then (s, [], [], some .shutdown) else (s, [], [], some (.unknownFd 0))
+  | .listener newFd =>
+    if s.conns.length = MAX_CONNECTIONS then (s, [], [.refused newFd], none)
+    else
+      let c : Client := { fd := newFd, inst := s.nextInst, conn := Conn.new s.limit }
+      ({ s with conns := s.conns.filter (·.fd ≠ newFd) ++ [c], nextInst := s.nextInst + 1 }, [],
+       [.accepted newFd s.nextInst], none)
+  | .client fd fl rd errText wr =>
+    match findClient s.conns fd with
+    | none => (s, [], [], some (.unknownFd fd))
+    | some c =>
+      if fl.hup then
+        let c' := { c with conn := clearWrite c.conn, state := .closed }
+        ({ s with conns := replaceClient s.conns c' }, [], [], none)
+      else if fl.inn then
+        match c.read rd errText with
+        | (c', _, some p) => ({ s with conns := replaceClient s.conns c' }, [], [], some (.connPanic p))
+        | (c', reqs, none) =>
+          let tok : Token := ⟨c.fd, c.inst⟩
+          let (c'', eff) :=
+            if c'.state = .awaitingOut then ({ c' with interest := .out }, [Effect.interest fd .out]) else (c', [])
+          ({ s with conns := replaceClient s.conns c'', outstanding := s.outstanding ++ reqs.map (fun _ => tok) },
+           reqs.map (fun r => (tok, r)), eff, none)
+      else if fl.out then
+        let (c', bytes) := c.write wr
+        let (c'', eff) :=
+          if c'.state = .awaitingIn then ({ c' with interest := .inn }, [Effect.interest fd .inn]) else (c', [])
+        ({ s with conns := replaceClient s.conns c'' },
+         [], (if bytes.isEmpty then [] else [Effect.wrote fd c.inst bytes]) ++ eff, none)
+      else (s, [], [], none)
+
+/-- "Remove dead connections." -/
+def sweep (s : Srv) : Srv × List Effect :=
+  ({ s with conns := s.conns.filter (fun c => !c.isDone) },
+   (s.conns.filter (fun c => c.isDone)).map (fun c => Effect.dropped c.fd c.inst))
+
+def runEvents : Srv → List Ev → List (Token × Request) → List Effect →
+    Srv × List (Token × Request) × List Effect × Option Abort
+  | s, [], reqs, effs => (s, reqs, effs, none)
+  | s, ev :: evs, reqs, effs =>
+    match handleEv s ev with
+    | (s', _, effs', some a) => (s', reqs, effs ++ effs', some a)
+    | (s', reqs', effs', none) => runEvents s' evs (reqs ++ reqs') (effs ++ effs')
+
+/-- `HttpServer::requests()` for the batch of events `epoll_wait` returned. -/
+def requests (s : Srv) (evs : List Ev) : Srv × PollResult × List Effect :=
+  match runEvents s evs [] [] with
+  | (s', _, effs, some a) => (s', .aborted a, effs)
+  | (s', reqs, effs, none) =>
+    let (s'', effs') := sweep s'
+    (s'', .ok reqs, effs ++ effs')
+
+inductive RespondResult | ok | underflow
+  deriving DecidableEq, Repr
+
+/-- `HttpServer::respond`: looks the connection up by descriptor number only. -/
+def respond (s : Srv) (tok : Token) (r : Response) : Srv × RespondResult × List Effect :=
+  let outstanding' := s.outstanding.erase tok
+  match findClient s.conns tok.fd with
+  | none => ({ s with outstanding := outstanding' }, .ok, [])
+  | some c =>
+    let (c1, eff) :=
+      if c.state = .awaitingIn then ({ c with state := .awaitingOut, interest := .out }, [Effect.interest c.fd .out])
+      else (c, [])
+    let c2 := if c1.state ≠ .closed then { c1 with conn := enqueue c1.conn r } else c1
+    if c2.inflight = 0 then
+      ({ s with conns := replaceClient s.conns c2, outstanding := outstanding' }, .underflow, eff)
+    else
+      ({ s with conns := replaceClient s.conns { c2 with inflight := c2.inflight - 1 }, outstanding := outstanding' },
+       .ok, eff)
+
+/-- the `while state == AwaitingOutgoing { write() }` loop of `flush_outgoing_writes` for one
+    connection, given the results of its successive `write` calls -/
+def flushClient : Client → List SinkStep → Client × List Byte
+  | c, [] => (c, [])
+  | c, w :: ws =>
+    if c.state = .awaitingOut then
+      let (c', b) := c.write w
+      let (c'', b') := flushClient c' ws
+      (c'', b ++ b')
+    else (c, [])
+
+/-- `flush_outgoing_writes`, given per connection the results of its writes. -/
+def flush (s : Srv) (script : Nat → List SinkStep) : Srv × List Effect :=
+  let rs := s.conns.map (fun c => (c, flushClient c (script c.fd)))
+  ({ s with conns := rs.map (fun x => x.2.1) },
+   (rs.filter (fun x => !x.2.2.isEmpty)).map (fun x => Effect.wrote x.1.fd x.1.inst x.2.2))
+
 end MicroHttp
